@@ -1023,7 +1023,7 @@ pub fn gen_program(rng: &mut SplitMix64, kind: u64) -> Program {
         // tree bins: many colliding keys in a table of >= 64 bins
         4 | 5 => {
             p.cap = 64;
-            p.hasher = if rng.chance(2, 3) { H_ZERO } else { H_SAMEBIN };
+            p.hasher = [H_ZERO, H_ZERO, H_SAMEBIN, H_ONES, H_HIGHONES][rng.below(5) as usize];
             let fill = 7 + rng.below(6) as u32;
             p.universe = fill + 4;
             p.prefill = (0..fill).collect();
